@@ -87,7 +87,7 @@ func (C17) Runs(tier string) uint64 {
 	if tier == "thorough" {
 		return 2000000
 	}
-	return 60000
+	return 50000
 }
 
 var sharedOps = []string{"String", "Clone", "CloneExpr", "WalkFunc", "WalkNil", "Eval", "EvalBool", "EvalFields", "Reduce", "ReduceExpr", "RewriteFields", "ConditionExpr", "EvalType", "TypeValuerEval", "FieldDimensions", "ColumnNames", "FieldExprByName", "Names", "AliasNames", "Measurements", "RequiredPrivileges", "HasWildcard", "ExprNames", "HasTimeExpr", "TimeAscending", "ContainsVarRef", "IsSelector", "BinaryExprName", "Normalize", "TimeRangeMethods", "PartitionExpr", "ConjunctionsRoundTrip", "SortFields", "ListStrings"}
